@@ -124,10 +124,17 @@ def main(tier: str, seed: int, replay: str | None = None) -> int:
             ms.append(("concrete", x, alts, None))
         # family 2: a ** r(b) [a << pattern alternatives]
         n2 = 250 if quick else 3000
-        for _ in range(n2):
+        for k2 in range(n2):
             alts = pattern_alts(rng, h)
             r = rng.choice([("v", 1), ("o", 9, [("v", 1)])])
-            if rng.random() < 0.75:
+            if k2 % 6 == 5:
+                # base-type alternatives only, argument any base type (related or
+                # not, Unit/Top/Bottom included): the variable a is not part of the
+                # result, so nothing fixes it afterwards
+                bases = [("o", o, []) for o in range(5, 5 + h.nbase)]
+                alts = rng.sample(bases, rng.randint(2, min(3, len(bases))))
+                x = rng.choice([(o, []) for o in list(range(5, 5 + h.nbase)) + [0, 1, 2]])
+            elif rng.random() < 0.75:
                 a0 = rng.choice(alts)
                 x = inst_pattern(rng, h, a0, conc1)
                 if rng.random() < 0.5:
